@@ -296,6 +296,28 @@ func (x *exec) collect(ev *tevent, from, to int, evIdx int) {
 func (x *exec) registerSent(from, to int, evIdx int) {
 	outs := x.r.rec.slice(from, to)
 	for _, o := range outs {
+		if o.Kind == oWalWrite && o.Wal == "round" && len(o.Payload) >= 2 {
+			// a vote this validator signed and logged EXISTS even if the crash cut
+			// comes before its broadcast: the restarted engine restores it from the
+			// round WAL and counts it (quorum oracles must count it as well)
+			if m, err := consensus.UnmarshalMessage(binary.BigEndian.Uint16(o.Payload[:2]), o.Payload[2:]); err == nil {
+				if vm, ok := m.(*consensus.VoteMessage); ok && vm.Height == 1 {
+					if a := consensus.VerifSigner(vm); a != nil && a.Equal(x.r.w.wallets[x.r.own].Address()) {
+						dec := 0
+						if vm.BlockPartSetIDAndNTSVoteCount != nil {
+							dec = x.idOfKey(consensus.VerifPSIDKey(vm.BlockPartSetIDAndNTSVoteCount.ID()))
+						}
+						if vm.Type == consensus.VoteTypePrecommit && dec != 0 {
+							x.notePC(vm.Round, dec, x.r.own)
+						}
+						if vm.Type == consensus.VoteTypePrevote {
+							x.notePV(vm.Round, dec, x.r.own)
+						}
+					}
+				}
+			}
+			continue
+		}
 		if o.Kind != oBcast {
 			continue
 		}
